@@ -640,7 +640,7 @@ def _shown_degenerate(fam, color_mode, lo, v):
         return 0 if color_mode else lo
     if not color_mode:
         return v
-    return -7 if v == lo else (4 if v > lo else 0)
+    return 0      # as repaired (fixes/C20-11): a degenerate scale maps every cell to 0, like Normalize
 
 
 def _make_sig_class(sig):
@@ -1127,10 +1127,12 @@ def run_impl(case):
                          f"colour bar axes / limits (x2) {cb}")
                 exp = [(_shown_degenerate(fam, cm, lo, ldata[x][y]) if hi == lo else _shown(fam, cm, lo, hi, a4, ldata[x][y]))
                        for y in range(sp["h"]) for x in range(sp["w"])]
-                if hi == lo and cm and fam != "Hex" and any(v == -7 for v in view) and view == exp:
-                    failures.append({"key": "candidate:C20/layer/Orth/constant-layer-color-mode-is-nan", "op": i,
-                                     "what": "color mode with vmin == vmax: the alpha channel handed to imshow is NaN where data == vmin"})
-                if view != exp:
+                if hi == lo and cm and fam != "Hex" and how == "image" and view != exp:
+                    fail("C20/layer/Orth/constant-layer-color-mode-nan", i,
+                         f"draw_property_layers on {cls} {sp['w']}x{sp['h']}, color mode, vmin={vmin}, vmax={vmax}, layer.data[x][y] = {ldata} "
+                         f"(scale [{lo}, {hi}] is degenerate): the alpha channel handed to imshow (x4; NaN = -7) is {view}, i.e. 0/0 and x/0; "
+                         "a degenerate scale - every constant layer under the default vmin / vmax - divides by zero")
+                elif view != exp:
                     key = f"C20/layer/{fam}/wrong-cell-values"
                     if fam == "Hex" and how == "image":
                         key = "C20/layer/Hex/drawn-as-rectangular-image"
